@@ -25,17 +25,28 @@ package elasticquota
 //   - UPDATE and DELETE reach the webhook only for objects that exist in the API server, i.e. that
 //     the webhook accepted before and has not accepted the deletion of; the old object of an UPDATE
 //     and the object of a DELETE are the stored (last accepted, post-mutation) object;
-//   - the new object of an UPDATE is the stored object with user-editable fields replaced (parent
-//     label, is-parent label, tree-id label, namespaces annotation, spec.min, spec.max);
+//   - the new object of an UPDATE is the stored object with user-editable fields replaced (parent,
+//     is-parent, tree-id, allow-lent labels; namespaces / shared-weight / strict-check / guaranteed
+//     annotations; spec.min, spec.max; status.used); metadata.namespace never changes;
 //   - pods appear in the API server only after the pod webhook (ValidateAddPod) admitted them;
-//   - not generated, because the quantifier does not range over them: allow-force-update label,
-//     is-root label (tree roots), allow-lent label, guaranteed/allocated annotations, the system /
-//     root / default quota names, max-strict-check keys. Feature gates stay at their defaults.
+//   - the webhook's own informer echoes every accepted write back through OnQuotaAdd /
+//     OnQuotaUpdate / OnQuotaDelete, in the order of the writes; "immediate echo" cases deliver it
+//     before the next request (everything is asserted), "lagged echo" cases deliver it later
+//     (the statement does not describe that window: only the rejected-unchanged clause is asserted
+//     there, everything else is counted);
+//   - the objects the scheduler itself creates through the webhook are generated too: the system
+//     and default quotas (ordinary quotas with reserved names) and the root quota object
+//     (is-parent=true, allow-lent=false, empty parent label). The root object IS the root: it is
+//     not a node of the forest for the walker, and where the webhook records it is only counted;
+//   - not generated, because the quantifier does not range over them and DESIGN.md excludes them as
+//     documented bypasses of the min clauses: allow-force-update label, is-root label (tree roots).
 
 import (
 	"context"
 	"encoding/json"
+	"errors"
 	"fmt"
+	"os"
 	"sort"
 	"strings"
 	"testing"
@@ -48,9 +59,11 @@ import (
 	"k8s.io/apimachinery/pkg/runtime/serializer"
 	clientgoscheme "k8s.io/client-go/kubernetes/scheme"
 	k8stesting "k8s.io/client-go/testing"
+	"k8s.io/component-base/featuregate"
 	"k8s.io/klog/v2"
 	"sigs.k8s.io/controller-runtime/pkg/client"
 	"sigs.k8s.io/controller-runtime/pkg/client/fake"
+	"sigs.k8s.io/controller-runtime/pkg/client/interceptor"
 	"sigs.k8s.io/controller-runtime/pkg/webhook/admission"
 
 	"github.com/koordinator-sh/koordinator/apis/extension"
@@ -72,21 +85,27 @@ func (c15Discard) Write(p []byte) (int, error) { return len(p), nil }
 const (
 	c15Root    = extension.RootQuotaName
 	c15Missing = "missing" // a parent name that never exists
+	c15GPU     = "nvidia.com/gpu"
 )
 
 // ---------------------------------------------------------------------------------------------
 // requests
 
 // c15Spec is the user-editable content of a quota object. Empty strings / nil mean "label or
-// annotation absent"; min/max hold only the keys that are present.
+// annotation absent"; min/max hold only the keys that are present, as quantity strings.
 type c15Spec struct {
 	name     string
+	objNS    string // metadata.namespace (create only)
 	parent   string // "" (absent) | root | a quota name | c15Missing
-	isParent string // "" (absent) | "true" | "false"
+	isParent string // "" (absent) | "true" | "false" | other
 	tree     string // "" (absent) | tree id
+	lent     string // "" (absent) | "true" | "false"   (allow-lent label)
 	nss      []string
 	hasNss   bool
-	min, max map[string]int64
+	rawNss   string            // when set (with hasNss) the annotation is written verbatim
+	min, max map[string]string // quantity strings
+	extra    map[string]string // annotations written verbatim (shared weight, strict keys, guaranteed); nil = untouched
+	used     map[string]string // status.used; nil = untouched
 }
 
 type c15Req struct {
@@ -94,21 +113,25 @@ type c15Req struct {
 	spec c15Spec
 }
 
-func c15VecStr(m map[string]int64) string {
-	if m == nil {
-		return "-"
-	}
+func c15SortedKeys[V any](m map[string]V) []string {
 	keys := make([]string, 0, len(m))
 	for k := range m {
 		keys = append(keys, k)
 	}
 	sort.Strings(keys)
+	return keys
+}
+
+func c15VecStr(m map[string]string) string {
+	if m == nil {
+		return "-"
+	}
 	s := "{"
-	for i, k := range keys {
+	for i, k := range c15SortedKeys(m) {
 		if i > 0 {
 			s += ","
 		}
-		s += fmt.Sprintf("%s:%d", k, m[k])
+		s += k + ":" + m[k]
 	}
 	return s + "}"
 }
@@ -130,18 +153,35 @@ func (r c15Req) String() string {
 	s := r.spec
 	ns := "-"
 	if s.hasNss {
-		ns = "[" + strings.Join(s.nss, ",") + "]"
+		if s.rawNss != "" {
+			ns = "raw(" + s.rawNss + ")"
+		} else {
+			ns = "[" + strings.Join(s.nss, ",") + "]"
+		}
 	}
-	return fmt.Sprintf("%s %s parent=%s isParent=%s tree=%s ns=%s max=%s min=%s", r.op, s.name, c15Dash(s.parent), c15Dash(s.isParent), c15Dash(s.tree), ns, c15VecStr(s.max), c15VecStr(s.min))
+	out := fmt.Sprintf("%s %s parent=%s isParent=%s tree=%s ns=%s max=%s min=%s", r.op, s.name, c15Dash(s.parent), c15Dash(s.isParent), c15Dash(s.tree), ns, c15VecStr(s.max), c15VecStr(s.min))
+	if s.lent != "" {
+		out += " lent=" + s.lent
+	}
+	if s.objNS != "" && r.op == "create" {
+		out += " objNS=" + s.objNS
+	}
+	if s.extra != nil {
+		out += " annotations=" + c15VecStr(s.extra)
+	}
+	if s.used != nil {
+		out += " used=" + c15VecStr(s.used)
+	}
+	return out
 }
 
-func c15RL(m map[string]int64) corev1.ResourceList {
+func c15RL(m map[string]string) corev1.ResourceList {
 	if m == nil {
 		return nil
 	}
 	rl := corev1.ResourceList{}
 	for k, v := range m {
-		rl[corev1.ResourceName(k)] = *resource.NewQuantity(v, resource.DecimalSI)
+		rl[corev1.ResourceName(k)] = resource.MustParse(v)
 	}
 	return rl
 }
@@ -156,34 +196,55 @@ func c15SetOrDelete(m map[string]string, k, v string) {
 
 // c15Apply writes the user-editable fields of s into q.
 func c15Apply(q *v1alpha1.ElasticQuota, s c15Spec) {
-	if q.Labels == nil && (s.parent != "" || s.isParent != "" || s.tree != "") {
+	if q.Labels == nil && (s.parent != "" || s.isParent != "" || s.tree != "" || s.lent != "") {
 		q.Labels = map[string]string{}
 	}
 	if q.Labels != nil {
 		c15SetOrDelete(q.Labels, extension.LabelQuotaParent, s.parent)
 		c15SetOrDelete(q.Labels, extension.LabelQuotaIsParent, s.isParent)
 		c15SetOrDelete(q.Labels, extension.LabelQuotaTreeID, s.tree)
+		c15SetOrDelete(q.Labels, extension.LabelAllowLentResource, s.lent)
+	}
+	if (s.hasNss || s.extra != nil) && q.Annotations == nil {
+		q.Annotations = map[string]string{}
 	}
 	if s.hasNss {
-		if q.Annotations == nil {
-			q.Annotations = map[string]string{}
+		if s.rawNss != "" {
+			q.Annotations[extension.AnnotationQuotaNamespaces] = s.rawNss
+		} else {
+			b, _ := json.Marshal(s.nss)
+			q.Annotations[extension.AnnotationQuotaNamespaces] = string(b)
 		}
-		b, _ := json.Marshal(s.nss)
-		q.Annotations[extension.AnnotationQuotaNamespaces] = string(b)
 	} else if q.Annotations != nil {
 		delete(q.Annotations, extension.AnnotationQuotaNamespaces)
 	}
+	for k, v := range s.extra {
+		q.Annotations[k] = v
+	}
 	q.Spec.Max = c15RL(s.max)
 	q.Spec.Min = c15RL(s.min)
+	if s.used != nil {
+		q.Status.Used = c15RL(s.used)
+	}
 }
 
 func c15NewObject(s c15Spec) *v1alpha1.ElasticQuota {
+	ns := s.objNS
+	if ns == "" {
+		ns = "default"
+	}
 	q := &v1alpha1.ElasticQuota{
 		TypeMeta:   metav1.TypeMeta{Kind: "ElasticQuota", APIVersion: "scheduling.sigs.k8s.io/v1alpha1"},
-		ObjectMeta: metav1.ObjectMeta{Name: s.name, Namespace: "default"},
+		ObjectMeta: metav1.ObjectMeta{Name: s.name, Namespace: ns},
 	}
 	c15Apply(q, s)
 	return q
+}
+
+// c15RootSpec is the root quota object exactly as the scheduler creates it
+// (createRootQuotaIfNotPresent): is-parent=true, allow-lent=false, parent label "".
+func c15RootSpec() c15Spec {
+	return c15Spec{name: c15Root, objNS: "koordinator-system", isParent: "true", lent: "false"}
 }
 
 // ---------------------------------------------------------------------------------------------
@@ -208,7 +269,7 @@ func c15Derive(q *v1alpha1.ElasticQuota) c15Info {
 	in.tree = q.Labels[extension.LabelQuotaTreeID]
 	if a := q.Annotations[extension.AnnotationQuotaNamespaces]; a != "" {
 		var nss []string
-		if err := json.Unmarshal([]byte(a), &nss); err == nil {
+		if err := json.Unmarshal([]byte(a), &nss); err == nil { // an unreadable annotation binds nothing
 			in.nss = nss
 		}
 	}
@@ -217,18 +278,24 @@ func c15Derive(q *v1alpha1.ElasticQuota) c15Info {
 }
 
 func c15SpecOf(q *v1alpha1.ElasticQuota) c15Spec {
-	s := c15Spec{name: q.Name, parent: q.Labels[extension.LabelQuotaParent], isParent: q.Labels[extension.LabelQuotaIsParent], tree: q.Labels[extension.LabelQuotaTreeID]}
+	s := c15Spec{name: q.Name, parent: q.Labels[extension.LabelQuotaParent], isParent: q.Labels[extension.LabelQuotaIsParent],
+		tree: q.Labels[extension.LabelQuotaTreeID], lent: q.Labels[extension.LabelAllowLentResource]}
 	if a, ok := q.Annotations[extension.AnnotationQuotaNamespaces]; ok {
 		s.hasNss = true
-		_ = json.Unmarshal([]byte(a), &s.nss)
+		if err := json.Unmarshal([]byte(a), &s.nss); err != nil || a == "" {
+			s.rawNss = a
+			if a == "" {
+				s.hasNss = false // c15Apply cannot write an empty raw value; treat as absent
+			}
+		}
 	}
-	conv := func(rl corev1.ResourceList) map[string]int64 {
+	conv := func(rl corev1.ResourceList) map[string]string {
 		if rl == nil {
 			return nil
 		}
-		m := map[string]int64{}
+		m := map[string]string{}
 		for k, v := range rl {
-			m[string(k)] = v.Value()
+			m[string(k)] = v.String()
 		}
 		return m
 	}
@@ -249,7 +316,9 @@ func c15RLStr(rl corev1.ResourceList) string {
 			b.WriteByte(',')
 		}
 		q := rl[corev1.ResourceName(k)]
-		fmt.Fprintf(&b, "%s:%dm", k, q.MilliValue())
+		b.WriteString(k)
+		b.WriteByte(':')
+		b.WriteString(q.String())
 	}
 	b.WriteByte('}')
 	return b.String()
@@ -260,17 +329,29 @@ func c15RLStr(rl corev1.ResourceList) string {
 
 type c15Viol struct{ sig, msg string }
 
+type c15Echo struct {
+	kind     string // add | update | delete
+	old, obj *v1alpha1.ElasticQuota
+}
+
 type c15World struct {
 	qt     *quotaTopology
 	chk    *QuotaMetaChecker
 	cl     client.Client
-	shadow map[string]*v1alpha1.ElasticQuota // objects the webhook accepted and that still exist
+	shadow map[string]*v1alpha1.ElasticQuota // objects the webhook accepted and that still exist (incl. the root object)
 	pods   map[string]string                 // ns/name -> quota label ("" = none)
 	stats  map[string]int
+	// configuration of the case
+	keysIncluded bool   // ElasticQuotaEnableUpdateResourceKey on: "dimensions agree" = child's max keys included in the parent's
+	echo         string // "" | "immediate" | "lagged"
+	pending      []c15Echo
 	// bookkeeping for signatures / non-triviality
 	lastParentChange bool
 	log              func(format string, a ...any) // nil = silent
 }
+
+// c15FailList makes the fake API server fail the next List calls (injected API failure).
+var c15FailList bool
 
 // c15PodIndexClient builds the fake API server the way the package's tests do (controller-runtime
 // fake client with the pod index "label.quotaName"), on a private scheme and with client-go's plain
@@ -284,7 +365,13 @@ func c15PodIndexClient() client.Client {
 		WithObjectTracker(k8stesting.NewObjectTracker(sch, serializer.NewCodecFactory(sch).UniversalDecoder())).
 		WithIndex(&corev1.Pod{}, "label.quotaName", func(object client.Object) []string {
 			return []string{object.(*corev1.Pod).Labels[extension.LabelQuotaName]}
-		}).Build()
+		}).
+		WithInterceptorFuncs(interceptor.Funcs{List: func(ctx context.Context, cl client.WithWatch, list client.ObjectList, opts ...client.ListOption) error {
+			if c15FailList {
+				return errors.New("injected API failure")
+			}
+			return cl.List(ctx, list, opts...)
+		}}).Build()
 }
 
 func c15NewWorld(cl client.Client, pods map[string]string, stats map[string]int) *c15World {
@@ -292,10 +379,14 @@ func c15NewWorld(cl client.Client, pods map[string]string, stats map[string]int)
 	return &c15World{qt: qt, chk: &QuotaMetaChecker{QuotaTopo: qt}, cl: cl, shadow: map[string]*v1alpha1.ElasticQuota{}, pods: pods, stats: stats}
 }
 
+// names lists the quotas of the forest (the root object, if it was created, is the root itself and
+// not a node).
 func (w *c15World) names() []string {
 	out := make([]string, 0, len(w.shadow))
 	for n := range w.shadow {
-		out = append(out, n)
+		if n != c15Root {
+			out = append(out, n)
+		}
 	}
 	sort.Strings(out)
 	return out
@@ -317,12 +408,7 @@ func (w *c15World) snapshot() string {
 	qt.lock.RLock()
 	defer qt.lock.RUnlock()
 	var b strings.Builder
-	keys := make([]string, 0, len(qt.quotaInfoMap))
-	for k := range qt.quotaInfoMap {
-		keys = append(keys, k)
-	}
-	sort.Strings(keys)
-	for _, k := range keys {
+	for _, k := range c15SortedKeys(qt.quotaInfoMap) {
 		qi := qt.quotaInfoMap[k]
 		if qi == nil {
 			fmt.Fprintf(&b, "Q %s=nil\n", k)
@@ -332,25 +418,10 @@ func (w *c15World) snapshot() string {
 			k, qi.Name, qi.ParentName, qi.IsParent, qi.AllowLentResource, qi.AllowForceUpdate, qi.TreeID, qi.IsTreeRoot,
 			c15RLStr(qi.CalculateInfo.Max), c15RLStr(qi.CalculateInfo.Min), c15RLStr(qi.CalculateInfo.Guaranteed), c15RLStr(qi.CalculateInfo.Allocated))
 	}
-	keys = keys[:0]
-	for k := range qt.quotaHierarchyInfo {
-		keys = append(keys, k)
+	for _, k := range c15SortedKeys(qt.quotaHierarchyInfo) {
+		fmt.Fprintf(&b, "H %s=[%s]\n", k, strings.Join(c15SortedKeys(qt.quotaHierarchyInfo[k]), ","))
 	}
-	sort.Strings(keys)
-	for _, k := range keys {
-		ch := make([]string, 0, len(qt.quotaHierarchyInfo[k]))
-		for c := range qt.quotaHierarchyInfo[k] {
-			ch = append(ch, c)
-		}
-		sort.Strings(ch)
-		fmt.Fprintf(&b, "H %s=[%s]\n", k, strings.Join(ch, ","))
-	}
-	keys = keys[:0]
-	for k := range qt.namespaceToQuotaMap {
-		keys = append(keys, k)
-	}
-	sort.Strings(keys)
-	for _, k := range keys {
+	for _, k := range c15SortedKeys(qt.namespaceToQuotaMap) {
 		fmt.Fprintf(&b, "N %s=%s\n", k, qt.namespaceToQuotaMap[k])
 	}
 	return b.String()
@@ -366,9 +437,17 @@ func (w *c15World) bump(k string) {
 func c15Reason(err error) string {
 	m := err.Error()
 	for _, p := range [][2]string{
+		{"injected API failure", "api_list_failure"},
 		{"parent not exist", "fill_parent_missing"},
+		{"sharedWeight failed", "fill_shared_weight_unreadable"},
 		{"already exist", "duplicate_create"},
 		{"is already bound to quota", "namespace_bound"},
+		{"value < 0", "negative_value"},
+		{"invalid quota", "forbidden_modify"},
+		{"can not delete quotaGroup", "forbidden_delete"},
+		{"max-strict-check-resource-keys", "strict_keys_unreadable"},
+		{"< used", "strict_max_lt_used"},
+		{"included in used", "strict_key_not_in_max"},
 		{" > max ", "self_min_gt_max"},
 		{"included in min, which is not included in max", "self_min_key_not_in_max"},
 		{"isParent is forbidden to modify as false", "isparent_false_with_children"},
@@ -379,18 +458,43 @@ func c15Reason(err error) string {
 		{"not find parentInfo", "parent_missing"},
 		{"IsParent is false", "parent_not_parent_group"},
 		{"max keys are not the same", "max_keys_differ"},
+		{"max keys are not all included", "max_keys_not_included"},
 		{"min keys are not all included", "min_keys_not_included"},
 		{"brothers' MinQuota", "brothers_min_sum"},
 		{"children's MinQuota", "children_min_sum"},
 		{"child quotas", "delete_with_children"},
 		{"child pods", "delete_with_pods"},
 		{"own ancestor", "cycle"},
+		{"guarantee for min", "guarantee"},
+		{"invalid character", "annotation_unreadable"},
+		{"cannot unmarshal", "annotation_unreadable"},
 	} {
 		if strings.Contains(m, p[0]) {
 			return p[1]
 		}
 	}
+	if c15DebugOther {
+		fmt.Println("C15-OTHER:", m)
+	}
 	return "other"
+}
+
+var c15DebugOther = os.Getenv("C15_DEBUG_OTHER") != ""
+
+// deliver hands one echo to the informer handlers.
+func (w *c15World) deliver(e c15Echo) {
+	switch e.kind {
+	case "add":
+		w.qt.OnQuotaAdd(e.obj.DeepCopy())
+	case "update":
+		w.qt.OnQuotaUpdate(e.old.DeepCopy(), e.obj.DeepCopy())
+	case "delete":
+		w.qt.OnQuotaDelete(e.obj.DeepCopy())
+	}
+	w.bump("echo_" + e.kind + "_delivered")
+	if w.log != nil {
+		w.log("  informer echo: %s %s", e.kind, e.obj.Name)
+	}
 }
 
 // request executes one in-domain request on the real topology, updates the shadow set and, unless
@@ -404,7 +508,7 @@ func (w *c15World) request(r c15Req, oracle bool) (accepted bool, viol *c15Viol)
 	}
 	var err error
 	stage := "validate"
-	var obj *v1alpha1.ElasticQuota
+	var obj, old *v1alpha1.ElasticQuota
 	parentChange := false
 	switch r.op {
 	case "create":
@@ -416,7 +520,7 @@ func (w *c15World) request(r c15Req, oracle bool) (accepted bool, viol *c15Viol)
 			err = w.qt.ValidAddQuota(obj)
 		}
 	case "update":
-		old := w.shadow[r.spec.name].DeepCopy()
+		old = w.shadow[r.spec.name].DeepCopy()
 		obj = old.DeepCopy()
 		c15Apply(obj, r.spec)
 		err = w.chk.AdmitQuota(ctx, admission.Request{AdmissionRequest: admissionv1.AdmissionRequest{Operation: admissionv1.Update}}, obj)
@@ -449,15 +553,34 @@ func (w *c15World) request(r c15Req, oracle bool) (accepted bool, viol *c15Viol)
 		return false, nil
 	}
 	w.bump(r.op + "_accepted")
+	// a CREATE of an existing name that the webhook accepts is refused by the storage layer
+	// afterwards (AlreadyExists): the stored object stays, nothing is written, nothing is echoed
+	dupCreate := false
+	if _, dup := w.shadow[obj.Name]; dup && r.op == "create" {
+		dupCreate = true
+		w.bump("duplicate_create_accepted")
+	}
+	// the informer echo of the accepted write
+	if !dupCreate {
+		kind := map[string]string{"create": "add", "update": "update", "delete": "delete"}[r.op]
+		switch w.echo {
+		case "immediate":
+			w.deliver(c15Echo{kind: kind, old: old, obj: obj})
+		case "lagged":
+			w.pending = append(w.pending, c15Echo{kind: kind, old: old, obj: obj})
+		}
+	}
 	// shadow update + delete clauses
 	switch r.op {
 	case "create", "update":
-		if _, dup := w.shadow[obj.Name]; dup && r.op == "create" {
-			w.bump("duplicate_create_accepted")
+		if !dupCreate {
+			w.shadow[obj.Name] = obj
 		}
-		w.shadow[obj.Name] = obj
 		if parentChange {
 			w.bump("update_parent_change_accepted")
+		}
+		if obj.Name == c15Root && !dupCreate {
+			w.bump("root_object_created")
 		}
 	case "delete":
 		if oracle {
@@ -505,7 +628,10 @@ func (w *c15World) request(r c15Req, oracle bool) (accepted bool, viol *c15Viol)
 	if v := w.wellFormed(r); v != nil {
 		return true, v
 	}
-	if v := w.recordedEqualsDerived(r); v != nil {
+	if w.echo == "lagged" {
+		return true, nil // the record is compared at quiescence only (see TestVerifC15Sampled)
+	}
+	if v := w.recordedEqualsDerived(fmt.Sprintf("after accepted %q", r.String())); v != nil {
 		return true, v
 	}
 	return true, nil
@@ -551,6 +677,9 @@ func (w *c15World) wellFormed(last c15Req) *c15Viol {
 				return &c15Viol{sig, fmt.Sprintf("%s: following parent links from %s never reaches the root: %s", after, n, strings.Join(path, " -> "))}
 			}
 		}
+		if steps >= 4 {
+			w.bump("oracle_root_walks_depth_ge_5")
+		}
 		w.bump("oracle_root_walks")
 	}
 	for _, n := range names {
@@ -566,47 +695,57 @@ func (w *c15World) wellFormed(last c15Req) *c15Viol {
 			}
 		}
 	}
-	// the children's mins sum to at most the parent's min (parents other than the root)
-	sums := map[string]map[corev1.ResourceName]int64{}
+	// the children's mins sum to at most the parent's min (parents other than the root); quantity
+	// arithmetic, no fixed-width sums
+	sums := map[string]corev1.ResourceList{}
 	for _, n := range names {
 		in := infos[n]
 		if in.parent == c15Root {
 			continue
 		}
 		if sums[in.parent] == nil {
-			sums[in.parent] = map[corev1.ResourceName]int64{}
+			sums[in.parent] = corev1.ResourceList{}
 		}
 		for k, v := range in.min {
-			sums[in.parent][k] += v.MilliValue()
+			cur := sums[in.parent][k]
+			cur.Add(v)
+			sums[in.parent][k] = cur
 		}
 	}
 	for _, p := range names {
 		for k, s := range sums[p] {
 			pm := infos[p].min[k] // absent = nothing guaranteed = 0
-			if s > pm.MilliValue() {
-				return &c15Viol{"C15/tree/children-min-sum-exceeds-parent-min", fmt.Sprintf("%s: the children of %s have min %s summing to %dm, the parent's min is %s", after, p, k, s, c15RLStr(infos[p].min))}
+			if s.Cmp(pm) > 0 {
+				return &c15Viol{"C15/tree/children-min-sum-exceeds-parent-min", fmt.Sprintf("%s: the children of %s have min %s summing to %s, the parent's min is %s", after, p, k, s.String(), c15RLStr(infos[p].min))}
 			}
 		}
 		if len(sums[p]) > 0 {
 			w.bump("oracle_min_sum_checks")
 		}
 	}
-	// resource dimensions agree along the tree: with ElasticQuotaEnableUpdateResourceKey off (its
-	// default) the code defines this as "a quota declares max for exactly the dimensions its
-	// parent declares max for".
+	// resource dimensions agree along the tree, as the code's check defines it: with
+	// ElasticQuotaEnableUpdateResourceKey off (default) a quota declares max for exactly the
+	// dimensions its parent declares max for; with the gate on, for a subset of them.
 	for _, n := range names {
 		in := infos[n]
 		if in.parent == c15Root {
 			continue
 		}
 		p := infos[in.parent]
-		same := len(p.max) == len(in.max)
+		included := true
 		for k := range in.max {
 			if _, ok := p.max[k]; !ok {
-				same = false
+				included = false
 			}
 		}
-		if !same {
+		if w.keysIncluded {
+			if !included {
+				return &c15Viol{"C15/tree/max-keys-not-included", fmt.Sprintf("%s: quota %s declares max %s, its parent %s declares max %s (update-resource-key gate on)", after, n, c15RLStr(in.max), in.parent, c15RLStr(p.max))}
+			}
+			if len(p.max) != len(in.max) {
+				w.bump("states_child_max_keys_strict_subset")
+			}
+		} else if !included || len(p.max) != len(in.max) {
 			return &c15Viol{"C15/tree/max-keys-differ", fmt.Sprintf("%s: quota %s declares max %s, its parent %s declares max %s", after, n, c15RLStr(in.max), in.parent, c15RLStr(p.max))}
 		}
 		w.bump("oracle_dimension_checks")
@@ -633,19 +772,38 @@ func (w *c15World) wellFormed(last c15Req) *c15Viol {
 	return nil
 }
 
+func c15Without(xs []string, x string) []string {
+	out := make([]string, 0, len(xs))
+	for _, v := range xs {
+		if v != x {
+			out = append(out, v)
+		}
+	}
+	return out
+}
+
 // recordedEqualsDerived compares what the webhook recorded (observed through
 // getQuotaTopologyInfo, plus the namespace map) with the topology derived from the shadow set.
-func (w *c15World) recordedEqualsDerived(last c15Req) *c15Viol {
-	after := fmt.Sprintf("after accepted %q", last.String())
+// Only the parts of the record that feed an admission decision the statement talks about are
+// asserted: the set of recorded quotas and each one's name/parent/is-parent/max/min (parent
+// exists, is a parent group, key agreement, min sums), the child sets of ordinary quotas, the
+// namespace map (namespace uniqueness). The root OBJECT (if the scheduler created it) is outside
+// the statement: whether and where it is recorded, and the root's recorded child set, are counted.
+func (w *c15World) recordedEqualsDerived(after string) *c15Viol {
 	sum := w.qt.getQuotaTopologyInfo()
 	names := w.names()
+	_, rootRecorded := sum.QuotaInfoMap[c15Root]
+	_, rootExists := w.shadow[c15Root]
+	if rootRecorded != rootExists {
+		w.bump("root_object_record_presence_differs")
+	}
+	nrec := len(sum.QuotaInfoMap)
+	if rootRecorded {
+		nrec--
+	}
 	// quotaInfoMap
-	if len(sum.QuotaInfoMap) != len(names) {
-		rec := make([]string, 0)
-		for k := range sum.QuotaInfoMap {
-			rec = append(rec, k)
-		}
-		sort.Strings(rec)
+	if nrec != len(names) {
+		rec := c15Without(c15SortedKeys(sum.QuotaInfoMap), c15Root)
 		return &c15Viol{"C15/record/quota-set-mismatch", fmt.Sprintf("%s: recorded quotas %v, accepted objects %v", after, rec, names)}
 	}
 	kids := map[string][]string{c15Root: {}}
@@ -659,37 +817,65 @@ func (w *c15World) recordedEqualsDerived(last c15Req) *c15Viol {
 		if !ok || rec == nil {
 			return &c15Viol{"C15/record/quota-set-mismatch", fmt.Sprintf("%s: accepted quota %s is not recorded", after, n)}
 		}
-		want := fmt.Sprintf("name=%s parent=%s isParent=%v lent=%v max=%s min=%s", in.name, in.parent, in.isParent, in.lent, c15RLStr(in.max), c15RLStr(in.min))
-		have := fmt.Sprintf("name=%s parent=%s isParent=%v lent=%v max=%s min=%s", rec.Name, rec.ParentName, rec.IsParent, rec.AllowLentResource, c15RLStr(rec.Max), c15RLStr(rec.Min))
+		want := fmt.Sprintf("name=%s parent=%s isParent=%v max=%s min=%s", in.name, in.parent, in.isParent, c15RLStr(in.max), c15RLStr(in.min))
+		have := fmt.Sprintf("name=%s parent=%s isParent=%v max=%s min=%s", rec.Name, rec.ParentName, rec.IsParent, c15RLStr(rec.Max), c15RLStr(rec.Min))
 		if want != have {
 			return &c15Viol{"C15/record/quota-info-mismatch", fmt.Sprintf("%s: quota %s is recorded as {%s}, the accepted object says {%s}", after, n, have, want)}
+		}
+		if rec.AllowLentResource != in.lent {
+			w.bump("allow_lent_record_stale") // not part of the tree the statement describes: counted only
 		}
 		kids[in.parent] = append(kids[in.parent], n)
 		for _, ns := range in.nss {
 			nsWant[ns] = n
 		}
 	}
-	// hierarchy: every quota and the root have an entry holding exactly their children
-	for k, want := range kids {
+	if root, ok := w.shadow[c15Root]; ok {
+		for _, ns := range c15Derive(root).nss {
+			nsWant[ns] = c15Root
+		}
+	}
+	// hierarchy. Asserted: the child set recorded for every ORDINARY quota (it feeds the delete guard,
+	// the is-parent guard and the children-min-sum check). Counted only (converse_misses_*), because
+	// no admission decision the statement talks about reads them: the child set recorded for the
+	// ROOT (ValidAddQuota of the root quota object re-initialises it; nothing reads it), and entries
+	// kept for names that are not accepted quotas.
+	for _, k := range c15SortedKeys(kids) {
+		want := kids[k]
 		have, ok := sum.QuotaHierarchyInfo[k]
+		have = c15Without(have, c15Root)
+		sort.Strings(have)
+		sort.Strings(want)
+		if k == c15Root {
+			if !ok || strings.Join(have, ",") != strings.Join(want, ",") {
+				if rootExists && len(have) < len(want) {
+					w.bump("converse_misses_root_child_record_lost_after_root_object_create")
+				} else {
+					w.bump("converse_misses_root_child_record_differs")
+				}
+			}
+			continue
+		}
 		if !ok {
 			return &c15Viol{"C15/record/hierarchy-mismatch", fmt.Sprintf("%s: the hierarchy has no entry for %s", after, k)}
 		}
-		have = append([]string(nil), have...)
-		sort.Strings(have)
-		sort.Strings(want)
 		if strings.Join(have, ",") != strings.Join(want, ",") {
 			return &c15Viol{"C15/record/hierarchy-mismatch", fmt.Sprintf("%s: the hierarchy records children %v for %s, the accepted objects say %v", after, have, k, want)}
 		}
 	}
-	for k, have := range sum.QuotaHierarchyInfo {
+	for _, k := range c15SortedKeys(sum.QuotaHierarchyInfo) {
 		if _, ok := kids[k]; ok {
 			continue
 		}
-		if len(have) > 0 {
-			return &c15Viol{"C15/record/hierarchy-mismatch", fmt.Sprintf("%s: the hierarchy records children %v for %s, which is not an accepted quota", after, have, k)}
+		have := c15Without(sum.QuotaHierarchyInfo[k], c15Root)
+		switch {
+		case len(have) > 0:
+			w.bump("converse_misses_hierarchy_children_recorded_for_unknown_name")
+		case rootExists && k == "":
+			w.bump("root_object_hierarchy_entry")
+		default:
+			w.bump("hierarchy_stale_empty_entries")
 		}
-		w.bump("hierarchy_stale_empty_entries") // harmless left-over key: counted only
 	}
 	// namespace map
 	w.qt.lock.RLock()
@@ -705,9 +891,10 @@ func (w *c15World) recordedEqualsDerived(last c15Req) *c15Viol {
 	return nil
 }
 
-// shape is the abstract state recorded as "distinct": the multiset over quotas of (depth,
-// parent-group flag, number of children capped at 2), the number of namespace bindings capped at 2,
-// the number of distinct max key sets and of distinct tree ids. Names and amounts are abstracted away.
+// shape is the abstract state recorded as "distinct": which classes (depth capped at 3, parent-group
+// flag, number of children capped at 2) occur among the quotas and whether once or more often, the
+// number of namespace bindings capped at 2, the number of distinct max key sets and of distinct
+// tree ids. Names and amounts are abstracted away.
 func (w *c15World) shape() string {
 	names := w.names()
 	infos := map[string]c15Info{}
@@ -718,7 +905,7 @@ func (w *c15World) shape() string {
 	for _, n := range names {
 		nkids[infos[n].parent]++
 	}
-	var parts []string
+	classes := map[string]int{}
 	bound := 0
 	keysets, trees := map[string]bool{}, map[string]bool{}
 	for _, n := range names {
@@ -727,17 +914,27 @@ func (w *c15World) shape() string {
 			cur = infos[cur].parent
 			d++
 		}
+		if d > 3 {
+			d = 3
+		}
 		in := infos[n]
 		k := nkids[n]
 		if k > 2 {
 			k = 2
 		}
-		parts = append(parts, fmt.Sprintf("d%d/p%v/k%d", d, in.isParent, k))
+		classes[fmt.Sprintf("d%d/p%v/k%d", d, in.isParent, k)]++
 		bound += len(in.nss)
 		keysets[fmt.Sprint(c15KeysOf(in.max))] = true
 		trees[in.tree] = true
 	}
-	sort.Strings(parts)
+	var parts []string
+	for _, cl := range c15SortedKeys(classes) {
+		n := classes[cl]
+		if n > 2 {
+			n = 2
+		}
+		parts = append(parts, fmt.Sprintf("%sx%d", cl, n))
+	}
 	if bound > 2 {
 		bound = 2
 	}
@@ -792,27 +989,36 @@ func (w *c15World) depth() int {
 	return max
 }
 
-func c15Gates(t *testing.T) func() {
-	// the statement is about the default configuration; pin the gates the checks consult
-	var undo []func()
-	undo = append(undo, utilfeature.SetFeatureGateDuringTest(t, utilfeature.DefaultMutableFeatureGate, koordfeatures.ElasticQuotaEnableUpdateResourceKey, false))
-	undo = append(undo, utilfeature.SetFeatureGateDuringTest(t, utilfeature.DefaultMutableFeatureGate, koordfeatures.ElasticQuotaGuaranteeUsage, false))
-	undo = append(undo, utilfeature.SetFeatureGateDuringTest(t, utilfeature.DefaultMutableFeatureGate, koordfeatures.SupportParentQuotaSubmitPod, false))
-	undo = append(undo, utilfeature.SetFeatureGateDuringTest(t, utilfeature.DefaultMutableFeatureGate, koordfeatures.DisableDefaultQuota, false))
+var c15GateList = []struct {
+	name string
+	f    featuregate.Feature
+}{
+	{"updkey", koordfeatures.ElasticQuotaEnableUpdateResourceKey},
+	{"guarantee", koordfeatures.ElasticQuotaGuaranteeUsage},
+	{"parentpods", koordfeatures.SupportParentQuotaSubmitPod},
+	{"nodefault", koordfeatures.DisableDefaultQuota},
+}
+
+// c15SetGates sets the four gates the webhook's quota/pod checks consult (process globals; cases run
+// one after the other) and returns the restore function. nil = all at their defaults (off).
+func c15SetGates(on map[string]bool) func() {
+	gate := utilfeature.DefaultMutableFeatureGate
+	prev := map[string]bool{}
+	for _, g := range c15GateList {
+		prev[g.name] = gate.Enabled(g.f)
+		if err := gate.Set(fmt.Sprintf("%s=%v", g.f, on[g.name])); err != nil {
+			panic(err)
+		}
+	}
 	return func() {
-		for i := len(undo) - 1; i >= 0; i-- {
-			undo[i]()
+		for _, g := range c15GateList {
+			_ = gate.Set(fmt.Sprintf("%s=%v", g.f, prev[g.name]))
 		}
 	}
 }
 
 func c15Flush(c *kit.Case, stats map[string]int) {
-	keys := make([]string, 0, len(stats))
-	for k := range stats {
-		keys = append(keys, k)
-	}
-	sort.Strings(keys)
-	for _, k := range keys {
+	for _, k := range c15SortedKeys(stats) {
 		c.Count(k, stats[k])
 	}
 }
@@ -821,7 +1027,8 @@ func c15Flush(c *kit.Case, stats map[string]int) {
 // (1) exhaustive: every in-domain request sequence up to the tier's depth, from the empty topology
 
 // Two reduced universes (scope A: two names with namespaces and tree ids; scope B: three names, so
-// that a parent can have two children, without namespaces/tree ids).
+// that a parent can have two children, without namespaces/tree ids). Gates at their defaults, no
+// informer echo.
 //
 //	A: name in {a,b}; parent in {ROOT,a,b,missing}; isParent in {true,false}; namespaces in
 //	   {none,[n1]}; tree in {none,t1}; (max,min) over cpu in
@@ -830,15 +1037,16 @@ func c15Flush(c *kit.Case, stats map[string]int) {
 //	   cpu in the same six pairs                          -> 3*5*2*6 = 180 objects
 //
 // Requests of a scope: create(object), update(object) for every object, delete(name) for every
-// name. A pod carrying the quota label "b" (namespace n1) exists throughout, so that deleting b /
+// name; scope B additionally has the creation of the root quota object as the scheduler issues it.
+// A pod carrying the quota label "b" (namespace n1) exists throughout, so that deleting b /
 // turning b into a parent meets the pod clauses; a has no pods.
-var c15MinMax = [][2]map[string]int64{
+var c15MinMax = [][2]map[string]string{
 	{nil, nil},
-	{nil, {"cpu": 1}},
-	{{"cpu": 1}, {"cpu": 2}},
-	{{"cpu": 2}, nil},
-	{{"cpu": 2}, {"cpu": 1}},
-	{{"cpu": 2}, {"cpu": 2}},
+	{nil, {"cpu": "1"}},
+	{{"cpu": "1"}, {"cpu": "2"}},
+	{{"cpu": "2"}, nil},
+	{{"cpu": "2"}, {"cpu": "1"}},
+	{{"cpu": "2"}, {"cpu": "2"}},
 }
 
 func c15Universe(names []string, withNsTree bool) []c15Req {
@@ -867,6 +1075,9 @@ func c15Universe(names []string, withNsTree bool) []c15Req {
 	var reqs []c15Req
 	for _, o := range objs {
 		reqs = append(reqs, c15Req{op: "create", spec: o})
+	}
+	if !withNsTree {
+		reqs = append(reqs, c15Req{op: "create", spec: c15RootSpec()})
 	}
 	for _, o := range objs {
 		reqs = append(reqs, c15Req{op: "update", spec: o})
@@ -972,7 +1183,7 @@ func c15SeqStr(seq []c15Req) string {
 }
 
 func TestVerifC15Exhaustive(t *testing.T) {
-	defer c15Gates(t)()
+	defer c15SetGates(nil)()
 	nA, nB := c15CountCreates(c15UnivA), c15CountCreates(c15UnivB)
 	space := nA + nB
 	depth := 2
@@ -986,7 +1197,7 @@ func TestVerifC15Exhaustive(t *testing.T) {
 		t.Fatalf("fake client: %v", err)
 	}
 	kit.Run(t, kit.Config{Property: "C15", Unit: "exhaustive", Quick: space, Thorough: space, Exhaustive: true,
-		Rule: fmt.Sprintf("exhaustive: every in-domain sequence of create/update/delete requests of length 1..depth (depth 2 in the quick tier, 3 in the thorough tier) from the empty topology, executed on the real quotaTopology, over two reduced universes: A = names {a,b} x parent {root,a,b,missing} x isParent x namespaces {none,[n1]} x tree {none,t1} x (max,min) in 6 cpu pairs (%d objects, %d requests); B = names {a,b,c} x parent {root,a,b,c,missing} x isParent x the 6 pairs (%d objects, %d requests); a labelled pod of quota b exists throughout. One case = one first request (always a create: update/delete need an existing object), the inner sequences are counted as evaluations; distinct = (op, per-quota depth/parent flag/children/namespaces/tree/key sets) after accepted requests; non-trivial = first request accepted", nA, len(c15UnivA), nB, len(c15UnivB))},
+		Rule: fmt.Sprintf("exhaustive: every in-domain sequence of create/update/delete requests of length 1..depth (depth 2 in the quick tier, 3 in the thorough tier) from the empty topology, executed on the real quotaTopology, over two reduced universes: A = names {a,b} x parent {root,a,b,missing} x isParent x namespaces {none,[n1]} x tree {none,t1} x (max,min) in 6 cpu pairs (%d creates, %d requests); B = names {a,b,c} x parent {root,a,b,c,missing} x isParent x the 6 pairs, plus the creation of the root quota object as the scheduler issues it (%d creates, %d requests); a labelled pod of quota b exists throughout; gates at their defaults. One case = one first request (always a create: update/delete need an existing object), the inner sequences are counted as evaluations; distinct = (op, per-quota depth/parent flag/children/namespaces/tree/key sets) after accepted requests; non-trivial = first request accepted", nA, len(c15UnivA), nB, len(c15UnivB))},
 		func(c *kit.Case) {
 			univ, k := c15UnivA, c.K
 			scope := "A"
@@ -1022,60 +1233,139 @@ func TestVerifC15Exhaustive(t *testing.T) {
 }
 
 // ---------------------------------------------------------------------------------------------
-// (2) sampled: longer histories over the full universe of DESIGN.md
+// (2) sampled: longer histories over the full universe of DESIGN.md, widened by the domain audit
 
 var (
-	c15Names = []string{"a", "b", "c", "d"}
-	c15NS    = []string{"n1", "n2", "n3"}
-	c15Trees = []string{"", "t1", "t2"}
-	c15Vals  = []int64{0, 1, 2, 4}
-	c15Res   = []string{"cpu", "memory"}
+	c15BaseNames  = []string{"a", "b", "c", "d"}
+	c15MoreNames  = []string{"e", "f"}
+	c15Reserved   = []string{extension.SystemQuotaName, extension.DefaultQuotaName}
+	c15NS         = []string{"n1", "n2", "n3"}
+	c15Trees      = []string{"", "t1", "t2"}
+	c15Vals       = []string{"0", "1", "2", "4"}
+	c15RareVals   = []string{"500m", "1500m", "1Ti", "4611686018427387904", "-1"}
+	c15Res        = []string{"cpu", "memory"}
+	c15ObjNSOther = []string{"n1", "kube-system", "a"}
 )
 
-func c15RandVec(r *kit.Rand) map[string]int64 {
-	if r.Pct(8) {
+// c15Gen holds the per-case universe.
+type c15Gen struct {
+	r     *kit.Rand
+	w     *c15World
+	names []string // quota names of this case
+	res   []string // resource names of this case
+	guar  bool     // guarantee gate on: also draw guaranteed annotations
+}
+
+func (g *c15Gen) val() string {
+	if g.r.Pct(10) {
+		return kit.Pick(g.r, c15RareVals)
+	}
+	return kit.Pick(g.r, c15Vals)
+}
+
+func (g *c15Gen) randVec() map[string]string {
+	if g.r.Pct(8) {
 		return nil
 	}
-	m := map[string]int64{}
-	for _, k := range c15Res {
-		if r.Pct(65) {
-			m[k] = kit.Pick(r, c15Vals)
+	m := map[string]string{}
+	for _, k := range g.res {
+		p := 65
+		if k == c15GPU {
+			p = 35
+		}
+		if g.r.Pct(p) {
+			m[k] = g.val()
 		}
 	}
 	return m
 }
 
-func c15RandNss(r *kit.Rand) ([]string, bool) {
-	switch r.Weighted(55, 30, 10, 5) {
+func (g *c15Gen) randNss() (nss []string, has bool, raw string) {
+	r := g.r
+	switch r.Weighted(50, 27, 9, 4, 3, 3, 2, 2) {
 	case 0:
-		return nil, false
+		return nil, false, ""
 	case 1:
-		return []string{kit.Pick(r, c15NS)}, true
+		return []string{kit.Pick(r, c15NS)}, true, ""
 	case 2:
 		p := r.Perm(len(c15NS))
-		return []string{c15NS[p[0]], c15NS[p[1]]}, true
+		return []string{c15NS[p[0]], c15NS[p[1]]}, true, ""
+	case 3:
+		return []string{}, true, ""
+	case 4:
+		return append([]string(nil), c15NS...), true, "" // all three
+	case 5:
+		n := kit.Pick(r, c15NS)
+		return []string{n, n}, true, "" // the same namespace twice
+	case 6:
+		return []string{kit.Pick(r, g.names)}, true, "" // a namespace named like a quota
 	default:
-		return []string{}, true
+		return nil, true, "n1,n2" // not JSON: binds nothing
 	}
 }
 
-func c15RandParentAny(r *kit.Rand) string {
-	switch r.Weighted(20, 10, 60, 10) {
+func (g *c15Gen) randParentAny() string {
+	switch g.r.Weighted(20, 10, 60, 10) {
 	case 0:
 		return c15Root
 	case 1:
 		return ""
 	case 2:
-		return kit.Pick(r, c15Names)
+		return kit.Pick(g.r, g.names)
 	default:
 		return c15Missing
 	}
 }
 
-func c15RandSpec(r *kit.Rand, name string) c15Spec {
-	s := c15Spec{name: name, parent: c15RandParentAny(r), isParent: kit.Pick(r, []string{"true", "true", "false", ""}), tree: kit.Pick(r, c15Trees)}
-	s.nss, s.hasNss = c15RandNss(r)
-	s.max, s.min = c15RandVec(r), c15RandVec(r)
+// decorate adds the rarely set fields (allow-lent, metadata.namespace, odd is-parent spelling,
+// shared weight, strict-check keys + status.used, guaranteed).
+func (g *c15Gen) decorate(s c15Spec, create bool) c15Spec {
+	r := g.r
+	if r.Pct(8) {
+		s.lent = kit.Pick(r, []string{"true", "false", "false"})
+	}
+	if create && r.Pct(15) {
+		s.objNS = kit.Pick(r, c15ObjNSOther)
+	}
+	if r.Pct(2) {
+		s.isParent = kit.Pick(r, []string{"True", "1"})
+	}
+	addExtra := func(k, v string) {
+		if s.extra == nil {
+			s.extra = map[string]string{}
+		}
+		s.extra[k] = v
+	}
+	if r.Pct(4) {
+		addExtra(extension.AnnotationSharedWeight, kit.Pick(r, []string{`{"cpu":"3","memory":"1"}`, `{"cpu":"-1"}`, `{"nvidia.com/gpu":"1"}`, `nonsense`}))
+	}
+	if r.Pct(4) {
+		addExtra(extension.AnnotationMaxStrictCheckResourceKeys, kit.Pick(r, []string{`["cpu"]`, `["cpu","memory"]`, `nonsense`}))
+		s.used = map[string]string{"cpu": kit.Pick(r, []string{"0", "2", "4"})}
+		if r.Pct(40) {
+			s.used["memory"] = kit.Pick(r, []string{"0", "4"})
+		}
+	}
+	if g.guar && r.Pct(35) {
+		v := g.randVec()
+		if v == nil {
+			v = map[string]string{}
+		}
+		for k, q := range v {
+			if strings.HasPrefix(q, "-") {
+				v[k] = "1"
+			}
+		}
+		b, _ := json.Marshal(c15RL(v))
+		addExtra(extension.AnnotationGuaranteed, string(b))
+	}
+	return s
+}
+
+func (g *c15Gen) randSpec(name string) c15Spec {
+	s := c15Spec{name: name, parent: g.randParentAny(), isParent: kit.Pick(g.r, []string{"true", "true", "false", ""}), tree: kit.Pick(g.r, c15Trees)}
+	s.nss, s.hasNss, s.rawNss = g.randNss()
+	s.max, s.min = g.randVec(), g.randVec()
 	return s
 }
 
@@ -1088,9 +1378,15 @@ func c15KeysOf(rl corev1.ResourceList) []string {
 	return ks
 }
 
-// c15CoherentSpec proposes an object that has a fair chance of being admitted under the chosen
+func c15LE(a, b string) bool {
+	qa, qb := resource.MustParse(a), resource.MustParse(b)
+	return qa.Cmp(qb) <= 0
+}
+
+// coherentSpec proposes an object that has a fair chance of being admitted under the chosen
 // parent (same max keys as the parent, min within max and within the parent's min keys).
-func (w *c15World) c15CoherentSpec(r *kit.Rand, name string) c15Spec {
+func (g *c15Gen) coherentSpec(name string) c15Spec {
+	r, w := g.r, g.w
 	s := c15Spec{name: name}
 	var groups []string
 	for _, n := range w.names() {
@@ -1110,30 +1406,57 @@ func (w *c15World) c15CoherentSpec(r *kit.Rand, name string) c15Spec {
 		s.parent = ""
 	default:
 		s.parent = kit.Pick(r, groups)
+		if r.Pct(40) { // prefer the deepest group now and then, so that chains grow
+			best, bestD := s.parent, -1
+			for _, gname := range groups {
+				d, cur := 0, gname
+				for d <= len(groups) {
+					p := c15Derive(w.shadow[cur]).parent
+					if _, ok := w.shadow[p]; !ok || p == c15Root {
+						break
+					}
+					cur = p
+					d++
+				}
+				if d > bestD {
+					best, bestD = gname, d
+				}
+			}
+			s.parent = best
+		}
 		in := c15Derive(w.shadow[s.parent])
 		pinfo = &in
 	}
 	var keys, minKeys []string
 	if pinfo != nil {
 		keys, minKeys = c15KeysOf(pinfo.max), c15KeysOf(pinfo.min)
+		if w.keysIncluded && len(keys) > 1 && r.Pct(40) {
+			keys = keys[:len(keys)-1] // a strict subset is legal with the update-resource-key gate
+		}
 		s.tree = kit.Pick(r, []string{"", "", pinfo.tree})
 	} else {
 		keys = [][]string{{"cpu"}, {"cpu", "memory"}, {"cpu", "memory"}, {"memory"}, {}}[r.Intn(5)]
+		if len(g.res) > 2 && r.Pct(40) {
+			keys = append(append([]string(nil), keys...), c15GPU)
+		}
 		minKeys = keys
 		s.tree = kit.Pick(r, c15Trees)
 	}
-	s.max = map[string]int64{}
+	s.max = map[string]string{}
 	for _, k := range keys {
-		s.max[k] = kit.Pick(r, []int64{1, 2, 4, 4, 4})
+		s.max[k] = kit.Pick(r, []string{"1", "2", "4", "4", "4"})
+		if r.Pct(6) {
+			s.max[k] = kit.Pick(r, []string{"1Ti", "4611686018427387904", "1500m"})
+		}
 	}
-	s.min = map[string]int64{}
+	s.min = map[string]string{}
 	for _, k := range minKeys {
 		if _, ok := s.max[k]; !ok || r.Pct(35) {
 			continue
 		}
-		var cands []int64
-		for _, v := range c15Vals {
-			if v <= s.max[k] {
+		cands := []string{}
+		for _, v := range append(append([]string(nil), c15Vals...), "500m", "1500m", "1Ti", "4611686018427387904") {
+			if c15LE(v, s.max[k]) {
 				cands = append(cands, v)
 			}
 		}
@@ -1162,72 +1485,70 @@ func (w *c15World) c15CoherentSpec(r *kit.Rand, name string) c15Spec {
 	return s
 }
 
-func c15CopyVec(m map[string]int64) map[string]int64 {
+func c15CopyVec(m map[string]string) map[string]string {
 	if m == nil {
 		return nil
 	}
-	o := map[string]int64{}
+	o := map[string]string{}
 	for k, v := range m {
 		o[k] = v
 	}
 	return o
 }
 
-// c15Mutate changes one user-editable dimension of s.
-func (w *c15World) c15Mutate(r *kit.Rand, s c15Spec) (c15Spec, string) {
+// mutate changes one user-editable dimension of s.
+func (g *c15Gen) mutate(s c15Spec) c15Spec {
+	r, w := g.r, g.w
 	s.min, s.max = c15CopyVec(s.min), c15CopyVec(s.max)
-	switch r.Weighted(40, 12, 20, 10, 10, 5, 3) {
+	switch r.Weighted(40, 12, 20, 10, 10, 5, 3, 3) {
 	case 0:
 		// any existing quota (also the quota itself and its descendants), the root, or a missing one
 		opts := append([]string{c15Root, "", c15Missing}, w.names()...)
 		opts = append(opts, w.names()...)
 		s.parent = kit.Pick(r, opts)
-		return s, "parent"
 	case 1:
 		if s.isParent == "true" {
 			s.isParent = kit.Pick(r, []string{"false", ""})
 		} else {
 			s.isParent = "true"
 		}
-		return s, "isParent"
 	case 2:
 		if s.min == nil {
-			s.min = map[string]int64{}
+			s.min = map[string]string{}
 		}
-		k := kit.Pick(r, c15Res)
+		k := kit.Pick(r, g.res)
 		if r.Pct(25) {
 			delete(s.min, k)
 		} else {
-			s.min[k] = kit.Pick(r, c15Vals)
+			s.min[k] = g.val()
 		}
-		return s, "min"
 	case 3:
 		if s.max == nil {
-			s.max = map[string]int64{}
+			s.max = map[string]string{}
 		}
-		k := kit.Pick(r, c15Res)
+		k := kit.Pick(r, g.res)
 		if r.Pct(25) {
 			delete(s.max, k)
 		} else {
-			s.max[k] = kit.Pick(r, c15Vals)
+			s.max[k] = g.val()
 		}
-		return s, "max"
 	case 4:
-		s.nss, s.hasNss = c15RandNss(r)
-		return s, "namespaces"
+		s.nss, s.hasNss, s.rawNss = g.randNss()
 	case 5:
 		s.tree = kit.Pick(r, c15Trees)
-		return s, "tree"
+	case 6:
+		s.lent = kit.Pick(r, []string{"true", "false", ""})
 	default:
-		return s, "nothing"
+		// nothing: an update that changes no field
 	}
+	return s
 }
 
 func TestVerifC15Sampled(t *testing.T) {
-	defer c15Gates(t)()
+	defer c15SetGates(nil)()
 	cl := c15PodIndexClient()
-	kit.Run(t, kit.Config{Property: "C15", Unit: "sampled", Quick: 25000, Thorough: 400000,
-		Rule: "sampled: histories of 10-40 create/update/delete requests (interleaved with pod creations through ValidateAddPod and pod deletions) on one real quotaTopology over 4 names, parent in names+{root, absent label, missing}, isParent {true,false,absent}, tree {none,t1,t2}, namespaces = subsets of {n1,n2,n3} up to size 2, min/max over {cpu,memory} with each key absent or in {0,1,2,4}; 60% of the objects are proposed coherently with the current tree (parent group's key set, min<=max) and then perturbed, the rest uniformly; updates change 1-2 dimensions of the stored object (parent changes may target the quota itself or its descendants); oracle after every request; distinct = (op, outcome, multiset of per-quota depth/parent flag/children, namespace bindings, number of key sets and tree ids); non-trivial = case with accepted and rejected requests, a tree of depth >= 2 and an accepted parent change",
+	kit.Run(t, kit.Config{Property: "C15", Unit: "sampled", Quick: 14000, Thorough: 250000,
+		Rule: "sampled: histories of 10-40 (15% of the cases 41-80) create/update/delete requests, interleaved with pod creations through ValidateAddPod and pod deletions, on one real quotaTopology. Names: 4 (30% of the cases 6; 25% also the reserved system/default names; 25% also the root quota object as the scheduler creates it). parent in names+{root, absent label, missing}; isParent {true,false,absent, rarely 'True'/'1'}; tree {none,t1,t2}; allow-lent label rarely set; namespaces = subsets of {n1,n2,n3} of size 0-3, also a repeated entry, a namespace named like a quota, unreadable JSON; min/max over {cpu,memory} (25% of the cases also nvidia.com/gpu) with each key absent or in {0,1,2,4}, 10% from {500m,1500m,1Ti,2^62,-1}; rarely shared-weight / strict-check keys+status.used / guaranteed annotations; metadata.namespace varied. Per case the gates ElasticQuotaEnableUpdateResourceKey (15%), ElasticQuotaGuaranteeUsage (10%), SupportParentQuotaSubmitPod (10%), DisableDefaultQuota (5%) are switched on; 35% of the cases echo every accepted write through OnQuotaAdd/Update/Delete before the next request, 10% echo it lagged (count-only mode); 2% of the requests meet an API server whose List fails. 60% of the objects are proposed coherently with the current tree and then perturbed, the rest uniformly; updates change 1-2 dimensions of the stored object (parent changes may target the quota itself or its descendants). Oracle after every request; distinct = (op, outcome, multiset of per-quota depth/parent flag/children, namespace bindings, number of key sets and tree ids); non-trivial = case with accepted and rejected requests, a tree of depth >= 2 and an accepted parent change",
 	}, func(c *kit.Case) {
 		r := c.R
 		stats := map[string]int{}
@@ -1237,21 +1558,98 @@ func TestVerifC15Sampled(t *testing.T) {
 		// the fake API server is shared by all cases (building one costs milliseconds): every case
 		// starts and ends with no pods
 		defer func() {
+			c15FailList = false
 			for k := range w.pods {
 				parts := strings.SplitN(k, "/", 2)
 				_ = cl.Delete(context.TODO(), &corev1.Pod{ObjectMeta: metav1.ObjectMeta{Namespace: parts[0], Name: parts[1]}})
 			}
 		}()
+		// ---- the case's configuration
+		g := &c15Gen{r: r, w: w, names: append([]string(nil), c15BaseNames...), res: append([]string(nil), c15Res...)}
+		if r.Pct(30) {
+			g.names = append(g.names, c15MoreNames...)
+			stats["cases_6_names"]++
+		}
+		if r.Pct(25) {
+			g.names = append(g.names, c15Reserved...)
+			stats["cases_reserved_names"]++
+		}
+		rootObject := r.Pct(25)
+		if r.Pct(25) {
+			g.res = append(g.res, c15GPU)
+		}
+		gates := map[string]bool{"updkey": r.Pct(15), "guarantee": r.Pct(10), "parentpods": r.Pct(10), "nodefault": r.Pct(5)}
+		defer c15SetGates(gates)()
+		w.keysIncluded = gates["updkey"]
+		g.guar = gates["guarantee"]
+		for _, k := range c15SortedKeys(gates) {
+			if gates[k] {
+				stats["cases_gate_"+k]++
+			}
+		}
+		switch r.Weighted(55, 35, 10) {
+		case 1:
+			w.echo = "immediate"
+			stats["cases_echo_immediate"]++
+		case 2:
+			w.echo = "lagged"
+			stats["cases_echo_lagged"]++
+		}
 		nreq := r.Range(10, 40)
+		if r.Pct(15) {
+			nreq = r.Range(41, 80)
+		}
+		maxPods := 4
+		if len(g.names) > 4 {
+			maxPods = 6
+		}
+		c.Op("config: names=%v resources=%v rootObject=%v gates=%v echo=%s requests=%d", g.names, g.res, rootObject, gates, c15Dash(w.echo), nreq)
 		podSeq := 0
 		anyAcc, anyRej, deep, parentMoved := false, false, false, false
+		// lagged-echo mode: the state between an accepted write and its echo is outside the
+		// statement; breaks found there are counted and end the case quietly
+		lagStop := func(what string) {
+			stats["lag_mode_"+what]++
+		}
 		for i := 0; i < nreq; i++ {
+			// lagged echoes arrive in order, at arbitrary later moments
+			if w.echo == "lagged" && len(w.pending) > 0 && r.Pct(55) {
+				n := r.Range(1, len(w.pending))
+				stop := false
+				func() {
+					defer func() {
+						if e := recover(); e != nil {
+							c.Op("  PANIC in informer handler (lagged echo): %v", e)
+							lagStop("panic_in_informer_handler")
+							stop = true
+						}
+					}()
+					for ; n > 0; n-- {
+						w.deliver(w.pending[0])
+						w.pending = w.pending[1:]
+					}
+				}()
+				if stop {
+					return
+				}
+				if len(w.pending) == 0 {
+					if v := w.recordedEqualsDerived("at quiescence (all echoes delivered)"); v != nil {
+						c.Op("  lagged echo: %s", v.msg)
+						lagStop("quiescence_" + strings.TrimPrefix(v.sig, "C15/"))
+						if c15DebugOther {
+							fmt.Println("C15-QUIESCENCE:", v.sig, v.msg, "\n", strings.Join(c.Ops(), "\n"))
+						}
+						return
+					}
+					stats["lag_mode_quiescent_record_checks"]++
+				}
+			}
 			// environment: pods come and go
 			if r.Pct(25) {
-				if len(w.pods) < 4 && r.Pct(65) {
+				if len(w.pods) < maxPods && r.Pct(65) {
 					podSeq++
-					ns := kit.Pick(r, append([]string{"a"}, c15NS...))
-					label := kit.Pick(r, append([]string{""}, c15Names...))
+					ns := kit.Pick(r, append([]string{"a", "e"}, c15NS...))
+					label := kit.Pick(r, append([]string{""}, g.names...))
 					pw := MakePod(ns, fmt.Sprintf("p%d", podSeq))
 					if label != "" {
 						pw = pw.Label(extension.LabelQuotaName, label)
@@ -1267,14 +1665,12 @@ func TestVerifC15Sampled(t *testing.T) {
 						w.pods[ns+"/"+pod.Name] = label
 						c.Op("pod %s/%s label=%s created", ns, pod.Name, c15Dash(label))
 						stats["pod_created"]++
+						if in, ok := w.shadow[label]; ok && label != "" && c15Derive(in).isParent {
+							stats["pod_created_on_parent_quota"]++
+						}
 					}
 				} else if len(w.pods) > 0 {
-					keys := make([]string, 0, len(w.pods))
-					for k := range w.pods {
-						keys = append(keys, k)
-					}
-					sort.Strings(keys)
-					k := kit.Pick(r, keys)
+					k := kit.Pick(r, c15SortedKeys(w.pods))
 					parts := strings.SplitN(k, "/", 2)
 					if err := cl.Delete(context.TODO(), &corev1.Pod{ObjectMeta: metav1.ObjectMeta{Namespace: parts[0], Name: parts[1]}}); err != nil {
 						c.Harness("fake client delete pod: %v", err)
@@ -1286,20 +1682,24 @@ func TestVerifC15Sampled(t *testing.T) {
 			}
 			// the request
 			existing := w.names()
-			wCreate, wUpdate, wDelete := 40, 0, 0
+			_, rootExists := w.shadow[c15Root]
+			wCreate, wUpdate, wDelete, wRoot := 40, 0, 0, 0
 			if len(existing) > 0 {
 				wUpdate, wDelete = 45, 15
 			}
-			if len(existing) == len(c15Names) {
+			if len(existing) >= len(g.names) || len(existing) >= 5 && r.Pct(50) {
 				wCreate = 8
 			}
+			if rootObject {
+				wRoot = 4
+			}
 			var req c15Req
-			switch r.Weighted(wCreate, wUpdate, wDelete) {
+			switch r.Weighted(wCreate, wUpdate, wDelete, wRoot) {
 			case 0:
-				name := kit.Pick(r, c15Names)
+				name := kit.Pick(r, g.names)
 				if r.Pct(80) { // prefer a free name
 					var free []string
-					for _, n := range c15Names {
+					for _, n := range g.names {
 						if _, ok := w.shadow[n]; !ok {
 							free = append(free, n)
 						}
@@ -1309,13 +1709,18 @@ func TestVerifC15Sampled(t *testing.T) {
 					}
 				}
 				var s c15Spec
-				if r.Pct(60) {
-					s = w.c15CoherentSpec(r, name)
+				switch {
+				case (name == extension.SystemQuotaName || name == extension.DefaultQuotaName) && r.Pct(60):
+					// as the scheduler creates them: only spec.max
+					s = c15Spec{name: name, objNS: "koordinator-system", max: map[string]string{"cpu": "4", "memory": "4"}}
+				case r.Pct(60):
+					s = g.coherentSpec(name)
 					if r.Pct(30) {
-						s, _ = w.c15Mutate(r, s)
+						s = g.mutate(s)
 					}
-				} else {
-					s = c15RandSpec(r, name)
+					s = g.decorate(s, true)
+				default:
+					s = g.decorate(g.randSpec(name), true)
 				}
 				req = c15Req{op: "create", spec: s}
 			case 1:
@@ -1337,24 +1742,70 @@ func TestVerifC15Sampled(t *testing.T) {
 				var s c15Spec
 				switch r.Weighted(70, 15, 15) {
 				case 0:
-					s = c15SpecOf(w.shadow[name])
-					s, _ = w.c15Mutate(r, s)
+					s = g.mutate(c15SpecOf(w.shadow[name]))
 					if r.Pct(25) {
-						s, _ = w.c15Mutate(r, s)
+						s = g.mutate(s)
 					}
 				case 1:
-					s = w.c15CoherentSpec(r, name)
+					s = g.coherentSpec(name)
 					if r.Pct(60) {
 						s.tree = c15SpecOf(w.shadow[name]).tree // a tree id change is always refused
 					}
+					s.lent = c15SpecOf(w.shadow[name]).lent
 				default:
-					s = c15RandSpec(r, name)
+					s = g.randSpec(name)
+				}
+				if r.Pct(12) {
+					s = g.decorate(s, false)
 				}
 				req = c15Req{op: "update", spec: s}
-			default:
+			case 2:
 				req = c15Req{op: "delete", spec: c15Spec{name: kit.Pick(r, existing)}}
+			default:
+				// the root quota object: created once by the scheduler; later writes to it are refused
+				switch {
+				case !rootExists || r.Pct(30):
+					req = c15Req{op: "create", spec: c15RootSpec()}
+				case r.Pct(50):
+					s := c15SpecOf(w.shadow[c15Root])
+					s.max = map[string]string{"cpu": "4"}
+					req = c15Req{op: "update", spec: s}
+				default:
+					req = c15Req{op: "delete", spec: c15Spec{name: c15Root}}
+				}
 			}
-			acc, viol := w.request(req, true)
+			if r.Pct(2) {
+				c15FailList = true
+				c.Op("  (the API server fails List during the next request)")
+				stats["requests_with_api_list_failure"]++
+			}
+			var acc bool
+			var viol *c15Viol
+			if w.echo == "lagged" {
+				stop := false
+				func() {
+					defer func() {
+						if e := recover(); e != nil {
+							c.Op("  PANIC in the webhook on a record that is ahead of its echoes: %v", e)
+							lagStop("panic_in_webhook")
+							stop = true
+						}
+					}()
+					acc, viol = w.request(req, true)
+				}()
+				c15FailList = false
+				if stop {
+					return
+				}
+				if viol != nil && viol.sig != "C15/rejected/topology-changed" {
+					c.Op("  lagged echo: %s: %s", viol.sig, viol.msg)
+					lagStop("break_" + strings.TrimPrefix(viol.sig, "C15/"))
+					return
+				}
+			} else {
+				acc, viol = w.request(req, true)
+				c15FailList = false
+			}
 			if viol != nil {
 				c.Fail(viol.sig, "%s", viol.msg)
 			}
@@ -1365,11 +1816,18 @@ func TestVerifC15Sampled(t *testing.T) {
 				if w.lastParentChange {
 					parentMoved = true
 				}
-				if w.depth() >= 2 {
+				d := w.depth()
+				if d >= 2 {
 					deep = true
 				}
-				if d := w.depth(); d >= 3 {
+				if d >= 3 {
 					stats["states_depth_ge_3"]++
+				}
+				if d >= 5 {
+					stats["states_depth_ge_5"]++
+				}
+				if len(w.names()) >= 5 {
+					stats["states_ge_5_quotas"]++
 				}
 			} else {
 				anyRej = true
